@@ -578,11 +578,25 @@ class RecordMap(ShiftPipeAction):
         rk = s1.record_keys()
         if set(rk) != set(s2.record_keys()):
             raise ValueError("can only compose operations with matching record_keys")
-        inp = s1.example_input()
+        # value_suffix="": each example value cell is the name of the incoming content key it carries,
+        # so the layouts read off below refer to the columns/cells of the real incoming data
+        inp = s1.example_input(value_suffix="")
         out = s2.transform(s1.transform(inp))
         rsi = inp.drop(rk, axis=1, inplace=False)
         rso = out.drop(rk, axis=1, inplace=False)
         strict = self.strict and other.strict
+        if (inp.shape[0] >= 2) and (out.shape[0] < 2):
+            # row records out: name each incoming cell after the outgoing column it lands in
+            landing = {rso.iloc[0, j]: rso.columns[j] for j in range(rso.shape[1])}
+            for c in rsi.columns:
+                if c not in s1.blocks_in.control_table_keys:
+                    cells = [rsi[c].iloc[i] for i in range(rsi.shape[0])]
+                    lost = [v for v in cells if v not in landing]
+                    if len(lost) > 0:
+                        raise ValueError(
+                            "composite drops content keys, not a RecordMap: " + str(lost)
+                        )
+                    rsi[c] = [landing[v] for v in cells]
         if inp.shape[0] < 2:
             if out.shape[0] < 2:
                 return None
